@@ -19,6 +19,7 @@ const hex = "0123456789abcdef"
 
 func (r *Runtime) builtinJSON_parse(call FunctionCall) Value {
 	d := json.NewDecoder(strings.NewReader(call.Argument(0).toString().String()))
+	d.UseNumber()
 
 	value, err := r.builtinJSON_decodeValue(d)
 	if errors.Is(err, io.EOF) {
@@ -60,8 +61,14 @@ func (r *Runtime) builtinJSON_decodeToken(d *json.Decoder, tok json.Token) (Valu
 		return _null, nil
 	case string:
 		return newStringValue(tok), nil
-	case float64:
-		return floatToValue(tok), nil
+	case json.Number:
+		// the literal has already been validated by the decoder; a value outside the range of float64 is
+		// +-Inf or +-0 (strconv reports it as ErrRange but still returns that value)
+		f, err := strconv.ParseFloat(string(tok), 64)
+		if err != nil && !errors.Is(err, strconv.ErrRange) {
+			return nil, err
+		}
+		return floatToValue(f), nil
 	case bool:
 		if tok {
 			return valueTrue, nil
